@@ -200,15 +200,17 @@ def evalPiece (invoke : Name → Except Err String) (s : Store) (self : Name) : 
 
 ```
 format = re.sub(r'\$(\w+)', r'${\1}', self.format)
-t = re.sub(r'\$\{\s*(\w+)(?:\.(\w+))?\s*\}', counterValue, format)
+t = re.sub(r'\$\{\s*([^\s.{}]+)(?:\.(\w+))?\s*\}', counterValue, format)
 ```
-`\w` and `\s` are modelled on ASCII (letters, digits, `_`; blank, `\t \n \r \f \v`).  Because `\w+` is greedy and
-the characters that may follow a name (`.`, blank, `}`) are not word characters, backtracking never finds a match the
-left-to-right scan below does not find. -/
+`\w` and `\s` are modelled on ASCII (letters, digits, `_`; blank, `\t \n \r \f \v`).  Because `+` is greedy and
+the characters that may follow a name (`.`, blank, `{`, `}`) are not name characters, backtracking never finds a match
+the left-to-right scan below does not find. -/
 
 def isWord (c : Char) : Bool := c.isAlphanum || c == '_'
 def isSpaceChar (c : Char) : Bool :=
   c == ' ' || c == '\t' || c == '\n' || c == '\r' || c == Char.ofNat 11 || c == Char.ofNat 12
+/-- `[^\s.{}]`: what a counter name inside `${…}` may consist of (LaTeX names are `\csname` names) -/
+def isNameChar (c : Char) : Bool := !(isSpaceChar c) && c != '.' && c != '{' && c != '}'
 
 /-- first pass: every `$name` becomes `${name}` (`inW` = inside the name being copied) -/
 def pass1 : Bool → List Char → List Char
@@ -220,11 +222,11 @@ def pass1 : Bool → List Char → List Char
       if c == '$' && (match r with | d :: _ => isWord d | [] => false) then pre ++ '$' :: '{' :: pass1 true r
       else pre ++ c :: pass1 false r
 
-/-- after `${`: `\s*(\w+)(?:\.(\w+))?\s*\}`; returns name, optional representation and the rest of the text -/
+/-- after `${`: `\s*([^\s.{}]+)(?:\.(\w+))?\s*\}`; returns name, optional representation and the rest of the text -/
 def matchRef (r : List Char) : Option (String × Option String × List Char) :=
   let r1 := r.dropWhile isSpaceChar
-  let name := r1.takeWhile isWord
-  let r2 := r1.dropWhile isWord
+  let name := r1.takeWhile isNameChar
+  let r2 := r1.dropWhile isNameChar
   if name.isEmpty then none
   else
     let close (fm : Option String) (r3 : List Char) : Option (String × Option String × List Char) :=
